@@ -94,7 +94,8 @@ CONF = {
  "C14": {
   "level": "translation_validation",
   "rule": "session sets of 1..3 neighbors from an 11-session catalogue (IPv4/IPv6/unnumbered, iBGP/eBGP, VRF, second router, all options, dynamic ASN, DisableMP) x advertisement multisets from a 9-item catalogue (repeated prefixes with different communities, local-pref 0/non-zero, v4+v6 on one neighbor, prefixes sharing a base address) x every creation order x every Set order x explored map orders; the text carried by the last reload event, rendered by the real templateConfig, is parsed and interpreted by frrinterp; programs = configurations interpreted, disagreements_checked = (neighbor, prefix) judgements",
-  "parts": [{"name": "main", "pkg": "internal/bgp/frr", "test": "TestVerif_C14", "shards": {"quick": 16, "thorough": 16}}],
+  "parts": [{"name": "main", "pkg": "internal/bgp/frr", "test": "TestVerif_C14", "shards": {"quick": 16, "thorough": 16}},
+            {"name": "refused", "pkg": "internal/bgp/frr", "test": "TestVerif_C14rej", "shards": 4}],
   "blank_tests": ["internal/bgp/frr"],
   "rewrites": {"map": ["internal/bgp/frr/frr.go"]},
   "assumptions": ["FRR semantics as encoded in frrinterp (prefix-lists per AFI namespace, first match; route-maps in sequence order, match ip/ipv6 address, set, on-match next, implicit deny)",
